@@ -1,17 +1,17 @@
-(* C15 — executable model of the OpenQL export (addon_openql/intrf_openql_factory.py: OpenQLCircuitFactoryManager.construct)
-   as the sequence of calls it makes on the OpenQL API.  No proofs here.  The code is mirrored as it is:
+(* C15 — executable model of the OpenQL export (addon_openql/intrf_openql_factory.py: OpenQLCircuitFactoryManager.construct
+   and _extend_kernel, as of /repo commit 40c98cf) as the sequence of calls it makes on the OpenQL API.  No proofs here.
 
-   * one Program and one Kernel are created per (sub-)circuit; the walk goes through `_circuit_graph.get_node_iterator()`
-     (the listing tree of C08/Tree.v); a supported leaf extends the kernel through its factory (Gen/Tables.v
-     `openql_gate`: the kernel calls of each factory, translated from the source);
-   * a composite is exported recursively into its own Program, which is added to the parent Program `nr_of_repetitions`
-     times AT ONCE, during the walk; the parent's own kernel is added LAST (`result_program.add_kernel(kernel)` after the
-     loop).  So everything in sub-circuits runs before all of the parent's own gates (finding F7a), and the same Program
-     object (same kernel name) is added several times (F7b);
+   * construct creates ONE Program and ONE Kernel, `result_program.add_kernel(self._extend_kernel(process_circuit, kernel))`;
+   * _extend_kernel walks `_circuit_graph.get_node_iterator()` (the listing tree of C08/Tree.v); a supported leaf extends the
+     kernel through its factory (Gen/Tables.v `openql_gate`: the kernel calls of each factory, translated from the
+     source); a composite is expanded in place: `for i in range(nr_of_repetitions): kernel = self._extend_kernel(operation,
+     kernel)`; afterwards the composite's own class is looked up in the table (it is no key: `continue`);
    * names: program_<h>, kernel_<h> with h = first 8 hex digits of uuid5(NAMESPACE_DNS, '_'.join(class names of
-     decomposed_operations())); a given circuit_id replaces the program name; a sub-circuit's program is named
-     "sub_" + parent program name, its kernel kernel_<h(sub-circuit)> (so equal class-name sequences give equal kernel
-     names: F7c).  Names are kept symbolic here (the hash is an arbitrary function; see Proofs: name_render). *)
+     decomposed_operations())); a given circuit_id replaces the program name.  Names are kept symbolic here (the hash is an
+     arbitrary function; see the render functions in Proofs).
+
+   The walk of the code BEFORE 40c98cf (sub-programs added during the walk, own kernel last: finding F7) is kept at the end
+   as `ql_export_old`, for the record only. *)
 From Coq Require Import ZArith List Bool String.
 Import ListNotations.
 From QCE Require Import Base.Prelude C19.Model C08.Tree C08.Model.
@@ -106,29 +106,27 @@ Fixpoint exec_item (i : qitem) : list qcall :=
   end.
 Definition executed (p : qprog) : list qcall := flat_map exec_item (snd p).
 
-(* the walk as coded: state = (items added to the program so far, calls made on the own kernel so far) *)
-Definition wstate : Type := list qitem * list qcall.
-Fixpoint ql_item (nsub : nat) (base : pbase) (i : item) (st : wstate) : option wstate :=
+(* ------------------------------------------------------------------------------------------ the walk *)
+Section IterO.
+Context {S : Type} (f : S -> option S).
+Fixpoint iter_o (n : nat) (s : S) : option S :=
+  match n with
+  | O => Some s
+  | Datatypes.S k => match f s with Some s' => iter_o k s' | None => None end
+  end.
+End IterO.
+
+(* _extend_kernel: the state is the list of calls made on the kernel so far *)
+Fixpoint ql_item (i : item) (kc : list qcall) : option (list qcall) :=
   match i with
-  | Leaf l => match leaf_calls l with
-              | Some cs => Some (fst st, snd st ++ cs)
-              | None => None
-              end
-  | Block n body =>
-      (* inner_program = self.construct(operation, circuit_id="sub_" + program name) *)
-      match ofold (ql_item (S nsub) base) body ([], []) with
-      | Some (its, kc) =>
-          let inner := QSub (PN (S nsub) base) (its ++ [QKernel (KN (key body)) kc]) in
-          (* for i in range(nr_of_repetitions): result_program.add_program(inner_program); the composite's class is no key *)
-          Some (fst st ++ rep_list (Z.to_nat n) [inner], snd st)
-      | None => None
-      end
+  | Leaf l => match leaf_calls l with Some cs => Some (kc ++ cs) | None => None end
+  | Block n body => iter_o (ofold ql_item body) (Z.to_nat n) kc     (* range(n) is empty for n <= 0 *)
   end.
 Definition base_of (t : list item) (cid : option string) : pbase :=
   match cid with Some s => PB_id s | None => PB_hash (key t) end.
 Definition ql_export (t : list item) (cid : option string) : option qprog :=
-  match ofold (ql_item 0 (base_of t cid)) t ([], []) with
-  | Some (its, kc) => Some (PN 0 (base_of t cid), its ++ [QKernel (KN (key t)) kc])      (* result_program.add_kernel(kernel) *)
+  match ofold ql_item t [] with
+  | Some kc => Some (PN 0 (base_of t cid), [QKernel (KN (key t)) kc])
   | None => None
   end.
 
@@ -151,82 +149,33 @@ Definition ev_eqb (a b : ev) : bool :=
   | _, _ => false
   end.
 
-Record estate := MkE { e_evs : list ev; e_np : nat; e_nk : nat }.
-Definition emit (st : estate) (l : list ev) : estate := MkE (e_evs st ++ l) (e_np st) (e_nk st).
-
-Fixpoint qle_item (nsub : nat) (base : pbase) (me mk : nat) (i : item) (st : estate) : option estate :=
-  match i with
-  | Leaf l => match leaf_calls l with
-              | Some cs => Some (emit st (map (ECall mk) cs))
-              | None => None
-              end
-  | Block n body =>
-      let pid := e_np st in
-      let kid := e_nk st in
-      let st1 := MkE (e_evs st ++ [ENewProg (PN (S nsub) base); ENewKernel (KN (key body))]) (S pid) (S kid) in
-      match ofold (qle_item (S nsub) base pid kid) body st1 with
-      | Some st2 => Some (emit (emit st2 [EAddKernel pid kid]) (rep_list (Z.to_nat n) [EAddProg me pid]))
-      | None => None
-      end
-  end.
 Definition ql_events (t : list item) (cid : option string) : option (list ev) :=
-  let base := base_of t cid in
-  match ofold (qle_item 0 base 0%nat 0%nat) t (MkE [ENewProg (PN 0 base); ENewKernel (KN (key t))] 1 1) with
-  | Some st => Some (e_evs st ++ [EAddKernel 0 0])
+  match ofold ql_item t [] with
+  | Some kc => Some ([ENewProg (PN 0 (base_of t cid)); ENewKernel (KN (key t))] ++ map (ECall 0) kc ++ [EAddKernel 0 0])
   | None => None
   end.
 
-(* ------------------------------------------------------------------------------------------ a corrected walk *)
-(* what a repaired exporter would do (NOT what the code does): close the own kernel before a sub-circuit, so that
-   kernels and sub-programs alternate in listing order.  `fresh` stands for any scheme of kernel names. *)
-Section Corrected.
-Variable fresh : nat -> list item -> kname.
-Fixpoint qlc_item (nsub : nat) (base : pbase) (i : item) (st : wstate) : option wstate :=
+(* ------------------------------------------------------------------------------------------ history: the walk before 40c98cf *)
+(* state = (items added to the program so far, calls made on the own kernel so far); a composite was exported into its own
+   Program ("sub_" + parent name, kernel_<h(sub-circuit)>), added `nr_of_repetitions` times during the walk; the own kernel
+   was added last. *)
+Definition wstate : Type := list qitem * list qcall.
+Fixpoint ql_item_old (nsub : nat) (base : pbase) (i : item) (st : wstate) : option wstate :=
   match i with
   | Leaf l => match leaf_calls l with
               | Some cs => Some (fst st, snd st ++ cs)
               | None => None
               end
   | Block n body =>
-      match ofold (qlc_item (S nsub) base) body ([], []) with
+      match ofold (ql_item_old (S nsub) base) body ([], []) with
       | Some (its, kc) =>
-          let inner := QSub (PN (S nsub) base) (its ++ [QKernel (fresh (List.length its) body) kc]) in
-          Some (fst st ++ [QKernel (fresh (List.length (fst st)) []) (snd st)] ++ rep_list (Z.to_nat n) [inner], [])
+          let inner := QSub (PN (S nsub) base) (its ++ [QKernel (KN (key body)) kc]) in
+          Some (fst st ++ rep_list (Z.to_nat n) [inner], snd st)
       | None => None
       end
   end.
-Definition qlc_export (t : list item) (cid : option string) : option qprog :=
-  match ofold (qlc_item 0 (base_of t cid)) t ([], []) with
-  | Some (its, kc) => Some (PN 0 (base_of t cid), its ++ [QKernel (fresh (List.length its) t) kc])
-  | None => None
-  end.
-End Corrected.
-
-(* ------------------------------------------------------------------------------------------ the proposed repair *)
-(* The small patch evaluated for F7 (NOT applied to the code): one kernel per export; a sub-circuit is expanded in place,
-   `for i in range(nr_of_repetitions): kernel = self._extend_kernel(operation, kernel)`.  When the patch is adopted,
-   Run.v compares against qli_export / qli_events instead of ql_export / ql_events. *)
-Section IterO.
-Context {S : Type} (f : S -> option S).
-Fixpoint iter_o (n : nat) (s : S) : option S :=
-  match n with
-  | O => Some s
-  | Datatypes.S k => match f s with Some s' => iter_o k s' | None => None end
-  end.
-End IterO.
-
-Fixpoint qli_item (i : item) (kc : list qcall) : option (list qcall) :=
-  match i with
-  | Leaf l => match leaf_calls l with Some cs => Some (kc ++ cs) | None => None end
-  | Block n body => iter_o (ofold qli_item body) (Z.to_nat n) kc
-  end.
-Definition qli_export (t : list item) (cid : option string) : option qprog :=
-  match ofold qli_item t [] with
-  | Some kc => Some (PN 0 (base_of t cid), [QKernel (KN (key t)) kc])
-  | None => None
-  end.
-Definition qli_events (t : list item) (cid : option string) : option (list ev) :=
-  match ofold qli_item t [] with
-  | Some kc => Some ([ENewProg (PN 0 (base_of t cid)); ENewKernel (KN (key t))] ++ map (ECall 0) kc ++ [EAddKernel 0 0])
+Definition ql_export_old (t : list item) (cid : option string) : option qprog :=
+  match ofold (ql_item_old 0 (base_of t cid)) t ([], []) with
+  | Some (its, kc) => Some (PN 0 (base_of t cid), its ++ [QKernel (KN (key t)) kc])
   | None => None
   end.
